@@ -50,3 +50,13 @@ void h_hwloc_bitmap_alloc_full(void) { VERIF_GHOSTS(); hwloc_bitmap_alloc_full()
 void h_hwloc_bitmap_dup(void) { VERIF_GHOSTS(); struct hwloc_bitmap_s *s; hwloc_bitmap_dup(s); VERIF_CANARY(); }
 void h_hwloc_bitmap_free(void) { VERIF_GHOSTS(); struct hwloc_bitmap_s *s; hwloc_bitmap_free(s); VERIF_CANARY(); }
 void h_hwloc_bitmap_free_null(void) { VERIF_GHOSTS(); hwloc_bitmap_free((struct hwloc_bitmap_s *)0); VERIF_CANARY(); }
+
+/* quantified-hypothesis contracts (bitmap.quant.h) */
+void hq_hwloc_bitmap_iszero(void) { VERIF_GHOSTS(); struct hwloc_bitmap_s *s; hwloc_bitmap_iszero(s); VERIF_CANARY(); }
+void hq_hwloc_bitmap_isfull(void) { VERIF_GHOSTS(); struct hwloc_bitmap_s *s; hwloc_bitmap_isfull(s); VERIF_CANARY(); }
+void hq_hwloc_bitmap_isequal(void) { VERIF_GHOSTS(); struct hwloc_bitmap_s *a, *b; hwloc_bitmap_isequal(a, b); VERIF_CANARY(); }
+void hq_hwloc_bitmap_intersects(void) { VERIF_GHOSTS(); struct hwloc_bitmap_s *a, *b; hwloc_bitmap_intersects(a, b); VERIF_CANARY(); }
+void hq_hwloc_bitmap_isincluded(void) { VERIF_GHOSTS(); struct hwloc_bitmap_s *a, *b; hwloc_bitmap_isincluded(a, b); VERIF_CANARY(); }
+void hq_hwloc_bitmap_compare(void) { VERIF_GHOSTS(); struct hwloc_bitmap_s *a, *b; hwloc_bitmap_compare(a, b); VERIF_CANARY(); }
+void hq_hwloc_bitmap_compare_first(void) { VERIF_GHOSTS(); struct hwloc_bitmap_s *a, *b; hwloc_bitmap_compare_first(a, b); VERIF_CANARY(); }
+void hq_hwloc_bitmap_singlify(void) { VERIF_GHOSTS(); struct hwloc_bitmap_s *s; hwloc_bitmap_singlify(s); VERIF_CANARY(); }
